@@ -5,6 +5,7 @@ package acme
 import (
 	"context"
 	"net/http"
+	"time"
 )
 
 // VerifAddNonce feeds one Replay-Nonce header value to Client.addNonce (property C50).
@@ -44,4 +45,14 @@ func VerifNonceCount(c *Client) int {
 	c.noncesMu.Lock()
 	defer c.noncesMu.Unlock()
 	return len(c.nonces)
+}
+
+// VerifDefaultBackoff calls defaultBackoff (the RetryBackoff used when Client.RetryBackoff is nil)
+// for retry number n and a response that carries the given Retry-After header (if hasRA).
+func VerifDefaultBackoff(n int, hasRA bool, ra string) time.Duration {
+	res := &http.Response{Header: http.Header{}}
+	if hasRA {
+		res.Header.Set("Retry-After", ra)
+	}
+	return defaultBackoff(n, nil, res)
 }
